@@ -70,6 +70,38 @@ def part(ctx):
                 if rb[0] == 'ok' and k != 'KBit' and not (k == 'KCount' and sk == 'KFloat') and not bool(rb[1] == d):
                     found = True
                     ctx.fail('as_type %s -> %s -> %s is not equal to the source' % (sk, k, sk), {'ops': dbgen.descs_of(h.steps)}, finding_key='as_type-roundtrip')
+        # a conversion must reflect the database as it is NOW: as_type -> add -> as_type again, metric -> add -> metric
+        # (tanimoto / dice convert a count or float database with as_type(Fingerprint, copy=False) on every call)
+        others = [k for k in dbgen.KINDS if k != sk]
+        k2 = rng.choice(others)
+        h.op_as_type(src, k2, False)
+        m = rng.choice(['MTanimoto', 'MDice', 'MSoergel', 'MCosine']) if (d.bits or 0) <= 4096 else 'MSoergel'
+        h.op_metric(m, src, src)
+        h.op_add(src, h.batch(src, rng.choice([1, 2]), own=True))
+        r2 = h.op_as_type(src, k2, False)
+        fresh = h.op_as_type(src, k2, True)
+        ctx.count(('c17db-stale', i, sk, k2), True)
+        if r2[0] == 'ok' and fresh[0] == 'ok':
+            if dbgen.db_lit(dbgen.obs_db(r2[1])) != dbgen.db_lit(dbgen.obs_db(fresh[1])) or r2[1].fp_num != d.fp_num:
+                found = True
+                ctx.fail('as_type(%s, copy=False) after an addition does not show the added rows (stale conversion)' % k2,
+                         {'ops': dbgen.descs_of(h.steps)}, finding_key='as_type-stale')
+        _, M = dbgen.mods()
+        import numpy as np
+        for mname, f in (('tanimoto', M.tanimoto), ('dice', M.dice), ('soergel', M.soergel)):
+            if mname != 'soergel' and (d.bits or 0) > 4096:
+                continue
+            got = dbgen.attempt(lambda: np.asarray(f(d, d)))
+            from e3fp.fingerprint.fprint import Fingerprint
+            ref_db = d.as_type(Fingerprint, copy=True) if mname != 'soergel' else d.as_type(d.fp_type, copy=True)
+            ref = dbgen.attempt(lambda: np.asarray(f(ref_db, ref_db)))
+            ctx.count(('c17db-metric', i, mname), True)
+            if got[0] != ref[0] or (got[0] == 'ok' and (got[1].shape != (d.fp_num, d.fp_num) or not np.allclose(got[1], ref[1]))):
+                found = True
+                ctx.fail('%s(db, db) after an addition differs from the measure on a freshly converted database' % mname,
+                         {'ops': dbgen.descs_of(h.steps), 'shape': list(got[1].shape) if got[0] == 'ok' else got[1], 'rows': d.fp_num},
+                         finding_key='metric-stale-conversion')
+        h.op_metric(m, src, src)
         hists['c17db-%d' % i] = h
     nbad = dbgen.check_histories(ctx, hists, 'C17 database casts', finding_key_of=lambda h, st: 'dbcast:model-vs-impl')
     return found or nbad > 0
